@@ -1,7 +1,11 @@
 use crate::{get_hash_digest, BSVErrors, PublicKey, SigHash, SigningHash, ECDSA};
 use digest::generic_array::GenericArray;
+use digest::FixedOutput;
+use k256::elliptic_curve::ops::{Invert, Reduce};
 use k256::elliptic_curve::sec1::ToEncodedPoint;
-use k256::{ecdsa::recoverable, ecdsa::Signature as SecpSignature, FieldBytes};
+use k256::elliptic_curve::subtle::Choice;
+use k256::elliptic_curve::DecompressPoint;
+use k256::{ecdsa::Signature as SecpSignature, AffinePoint, FieldBytes, ProjectivePoint, Scalar, U256};
 use num_traits::FromPrimitive;
 
 #[derive(Debug, Clone, PartialEq, Eq, Default)]
@@ -66,6 +70,26 @@ impl Signature {
         Signature::from_der_impl(&bytes)
     }
 
+    /// Public key recovery (SEC1 4.1.6): Q = r^-1 (sR - zG), where R is the curve point whose abscissa is r and whose
+    /// ordinate has the recorded parity. There is no key when no such R exists or when Q is the point at infinity.
+    fn recover_point(&self, recovery: &RecoveryInfo, digest: &FieldBytes) -> Result<AffinePoint, BSVErrors> {
+        let no_key = |why: &str| BSVErrors::PublicKeyRecoveryError(format!("{} Signature Hex: {} Id: {:?}", why, self.to_der_hex(), recovery), ecdsa::Error::new());
+
+        if recovery.is_x_reduced {
+            return Err(no_key("Recovery ids 2 and 3 are not supported."));
+        }
+
+        let (r, s) = (self.sig.r(), self.sig.s());
+        let z = <Scalar as Reduce<U256>>::from_be_bytes_reduced(*digest);
+        let big_r = Option::<AffinePoint>::from(AffinePoint::decompress(&r.to_bytes(), Choice::from(recovery.is_y_odd as u8))).ok_or_else(|| no_key("r is not the abscissa of a curve point."))?;
+        let r_inv = Option::<Scalar>::from(r.invert()).ok_or_else(|| no_key("r has no inverse."))?;
+        let q = ((ProjectivePoint::from(big_r) * *s - ProjectivePoint::GENERATOR * z) * r_inv).to_affine();
+        match q == AffinePoint::IDENTITY {
+            true => Err(no_key("The recovered point is the point at infinity.")),
+            false => Ok(q),
+        }
+    }
+
     pub fn get_public_key(&self, message: &[u8], hash_algo: SigningHash) -> Result<PublicKey, BSVErrors> {
         let recovery = match &self.recovery {
             Some(v) => v,
@@ -77,19 +101,10 @@ impl Signature {
             }
         };
 
-        let id = ecdsa::RecoveryId::new(recovery.is_y_odd, recovery.is_x_reduced);
-        let k256_recovery = id.try_into().map_err(|e| BSVErrors::PublicKeyRecoveryError("".into(), e))?;
+        let message_digest = get_hash_digest(hash_algo, message).finalize_fixed();
+        let point = self.recover_point(recovery, &message_digest)?;
 
-        let recoverable_sig = recoverable::Signature::new(&self.sig, k256_recovery)?;
-        let message_digest = get_hash_digest(hash_algo, message);
-        let verify_key = match recoverable_sig.recover_verify_key_from_digest(message_digest) {
-            Ok(v) => v,
-            Err(e) => {
-                return Err(BSVErrors::PublicKeyRecoveryError(format!("Signature Hex: {} Id: {:?}", self.to_der_hex(), recovery), e));
-            }
-        };
-
-        let pub_key = PublicKey::from_bytes(verify_key.to_encoded_point(recovery.is_pubkey_compressed).as_bytes())?;
+        let pub_key = PublicKey::from_bytes(point.to_encoded_point(recovery.is_pubkey_compressed).as_bytes())?;
 
         Ok(pub_key)
     }
@@ -109,18 +124,9 @@ impl Signature {
             }
         };
 
-        let id = ecdsa::RecoveryId::new(recovery.is_y_odd, recovery.is_x_reduced);
-        let k256_recovery = id.try_into().map_err(|e| BSVErrors::PublicKeyRecoveryError("".into(), e))?;
+        let point = self.recover_point(recovery, GenericArray::from_slice(digest))?;
 
-        let recoverable_sig = recoverable::Signature::new(&self.sig, k256_recovery)?;
-        let verify_key = match recoverable_sig.recover_verify_key_from_digest_bytes(GenericArray::from_slice(digest)) {
-            Ok(v) => v,
-            Err(e) => {
-                return Err(BSVErrors::PublicKeyRecoveryError(format!("Signature Hex: {} Id: {:?}", self.to_der_hex(), recovery), e));
-            }
-        };
-
-        let pub_key = PublicKey::from_bytes(verify_key.to_encoded_point(recovery.is_pubkey_compressed).as_bytes())?;
+        let pub_key = PublicKey::from_bytes(point.to_encoded_point(recovery.is_pubkey_compressed).as_bytes())?;
 
         Ok(pub_key)
     }
